@@ -8,7 +8,7 @@ ENV = "cd /repo && GOFLAGS=-mod=mod GOPROXY=off GOSUMDB=off GOTOOLCHAIN=local"
 checks = {
  "C01": dict(level="model_checking", engine="HIST", ref="DESIGN.md §5 C01",
    technique="explicit-state BFS over API histories of the real provider with a lock-step reference model; every transition replayed on a fresh instance, global state deduplication",
-   text="Bounded model checking of the real provider: every history of authorize/redeem/refresh/revoke/advance operations up to the stated depth over <=2 concurrent grants, 3 flows, 2 token strategies and 3 refresh-scope configurations is executed against ory/fosite and compared step by step with a reference model (single use, invalid_grant on replay, whole descendant family dead); after every transition every token ever issued is introspected. Plus: 2..3 (4) overlapping redemptions of one code with every interleaving of their NewAccessRequest / NewAccessResponse phases (at most one succeeds).",
+   text="Bounded model checking of the real provider: every history of authorize/redeem/refresh/revoke/advance operations up to the stated depth over <=2 concurrent grants, 3 flows, 2 token strategies and 3 refresh-scope configurations is executed against ory/fosite and compared step by step with a reference model (single use, invalid_grant on replay, whole descendant family dead); after every transition every token ever issued is introspected. Plus: 2..3 (4) overlapping redemptions of one code with every interleaving of their NewAccessRequest / NewAccessResponse phases (at most one succeeds); and a further search (one level shallower) over grants started from pushed authorization requests, including a second presentation of the same request_uri.",
    note="Bounded: depth/grants/alphabet as reported in evidence.bounds. Trusted: the harness drivers (HTTP round trips through httptest), the overlay clock rewrite, the deterministic random source; reference MemoryStore behind a logging proxy."),
  "C03": dict(level="model_checking", engine="SEQ", ref="DESIGN.md §5 C03",
    technique="exhaustive enumeration of all redemption-attempt sequences up to a depth on the real token endpoint, judged by a reference predicate",
@@ -16,22 +16,22 @@ checks = {
    note="One-sided oracle exactly as the statement; verifier alphabet is the 7 listed kinds; PKCE parameters other than those listed are out of the alphabet."),
  "C04": dict(level="model_checking", engine="HIST", ref="DESIGN.md §5 C04",
    technique="explicit-state BFS over API histories of the real provider with a lock-step reference model (refresh chains, replay of any generation), global state deduplication",
-   text="Every history up to the stated depth over <=2 grants (code, hybrid, password, device, OIDC public) in which every refresh token ever issued remains presentable (by owner or foreign client), with revocation and time advance interleaved; model: one use per refresh token, rotation kills presented RT and sibling AT, reuse answers invalid_grant and kills the family, other grants untouched; every token introspected after every step. Plus: 2..3 (4) overlapping exchanges of one refresh token with every interleaving of their NewAccessRequest / NewAccessResponse phases (at most one succeeds).",
+   text="Every history up to the stated depth over <=2 grants (code, hybrid, password, device, OIDC public) in which every refresh token ever issued remains presentable (by owner or foreign client), with revocation and time advance interleaved; model: one use per refresh token, rotation kills presented RT and sibling AT, reuse answers invalid_grant and kills the family, other grants untouched; every token introspected after every step. Plus: a search with JWT access tokens under RS256 (deterministic signatures; tokens minted in the same second differ only in jti), and 2..3 (4) overlapping exchanges of one refresh token with every interleaving of their NewAccessRequest / NewAccessResponse phases (at most one succeeds).",
    note="Bounded by depth (chain length <= depth-1). Where the statement is silent (state after refusing a never-used token) the model adopts the implementation's answer and counts a dont_care."),
  "C08": dict(level="model_checking", engine="HIST", ref="DESIGN.md §5 C08",
    technique="explicit-state BFS over API histories with revocation by owner / foreign / unauthenticated callers and all token_type_hints on tokens in every liveness state; store-dump equality for 'changes nothing'",
-   text="Every history up to the stated depth over <=2 grants where each token ever seen can be revoked by owner, foreign client or a caller failing authentication, with 4 hint values; oracle: owner => token and sibling dead in all later sweeps; foreign => unauthorized_client and byte-identical store dump; unauthenticated => unchanged; already invalid => success and unchanged.",
+   text="Every history up to the stated depth over <=2 grants where each token ever seen can be revoked by owner, foreign client or a caller failing authentication, with 6 hint values (absent, access_token, refresh_token, garbage, id_token, authorize_code); oracle: owner => token and sibling dead in all later sweeps; foreign => unauthorized_client and byte-identical store dump; unauthenticated => unchanged; already invalid => success and unchanged. Plus: a refresh request validated before and completed after the owner's accepted revocation (of the presented refresh token / of its sibling access token) must not yield live tokens.",
    note="Bounded by depth; 'other tokens of the same grant' after an owner revocation are not pinned by the statement and are adopted from introspection."),
  "C09": dict(level="model_checking", engine="HIST", ref="DESIGN.md §5 C09",
    technique="explicit-state BFS over API histories of all grant types; in every reached state the introspection endpoint is queried for every token under a grid of hints, scopes and caller credentials and compared with the model",
-   text="In every state reached by histories up to the stated depth (code, hybrid, password, device, client credentials, OIDC; HMAC and JWT; refresh-token validation on/off; 3 scope strategies) every token ever seen is introspected and active/payload compared with the reference model.",
+   text="In every state reached by histories up to the stated depth (code, hybrid, password, device, client credentials, OIDC; HMAC and JWT; refresh-token validation on/off; 3 scope strategies) every token ever seen is introspected and active/payload compared with the reference model; refresh tokens are also presented by a foreign client (replay detection must kill the family whoever replays); callers include a public client's id with some secret.",
    note="Bounded by depth and alphabets in evidence.bounds; token kind is read from the IntrospectionResponder because the HTTP writer does not render it."),
 }
 
 checks.update({
  "C02": dict(level="exploration", engine="ENUM", ref="DESIGN.md §5 C02",
    technique="exhaustive enumeration of the full product of attempt dimensions at several history positions on the real provider, reference predicate + store-dump equality",
-   text="Every combination of owner client (confidential/public, with/without redirect_uri sent) x flow x history position x token strategy x presenter x redirect_uri form x smuggled parameter (incl. partial consent) x code age is executed as authorize -> attempt -> legitimate redemption -> introspection on a fresh provider. Issuance only for owner + string-equal redirect_uri + unexpired; refusals must be invalid_grant for foreign client / different redirect_uri, leave the store dump unchanged and the code redeemable; issued tokens carry exactly the grant.",
+   text="Every combination of owner client (confidential/public, with/without redirect_uri sent) x flow (code, OIDC code, hybrid, pushed request, pushed request with another registered redirect_uri appended on the front channel) x history position x token strategy x presenter x redirect_uri form x smuggled parameter (incl. partial consent) x code age is executed as authorize -> attempt -> legitimate redemption -> introspection on a fresh provider. Issuance only for owner + string-equal redirect_uri + unexpired; refusals must be invalid_grant for foreign client / different redirect_uri, leave the store dump unchanged and the code redeemable; issued tokens carry exactly the grant.",
    note="Alphabets are those listed in evidence.bounds; code ages are 5 s away from the expiry instant (expiry rounding is C07)."),
  "C05": dict(level="exploration", engine="ENUM", ref="DESIGN.md §5 C05",
    technique="exhaustive enumeration of the full product of grant / request / registration-change / configuration dimensions on the real provider against independent reference strategies",
@@ -42,7 +42,7 @@ checks.update({
 checks.update({
  "C06": dict(level="exploration", engine="ENUM", ref="DESIGN.md §5 C06",
    technique="exhaustive enumeration of a mutation grammar over genuine credentials (all single-bit flips, all truncations, all part swaps, prefixes, re-encodings, secrets, hash functions, JWT header/payload/signature manipulations), each mutant presented end to end to the real provider and judged by a reference HMAC",
-   text="For every hash function x entropy x refresh lifespan configuration, four genuine credentials are minted and every mutant of the grammar is presented at the endpoint that accepts the kind; an accepted string must authenticate under a configured >=32-byte secret per an independent HMAC computation. 8 secret-rotation scenarios, short secrets, JWT algorithm confusion for 4 signing keys, and structural minting checks (bytes drawn, embedding, distinctness) through a counting deterministic random source.",
+   text="For every hash function x entropy x refresh lifespan configuration, four genuine credentials are minted and every mutant of the grammar is presented at the endpoint that accepts the kind; an accepted string must authenticate under a configured >=32-byte secret per an independent HMAC computation. 8 secret-rotation scenarios, short secrets, JWT algorithm confusion for 4 signing keys, and structural minting checks (bytes drawn, embedding, distinctness) through a counting deterministic random source that also answers with short reads (1/8/31 bytes per call); a symmetric (oct) JWK configured as signing key must never lead to an accepted JWT (server-minted or forged HS256/384/512).",
    note="Strings decoding to the genuine bytes are don't-care; entropy is checked structurally (crypto/rand quality assumed)."),
  "C12": dict(level="exploration", engine="ENUM", ref="DESIGN.md §5 C12",
    technique="exhaustive enumeration of all (registered, requested) string pairs over a segment alphabet and of a URL grid against documented semantics (two-sided), plus the full flow x strategy x request-family product on the real provider (one-sided)",
@@ -57,7 +57,7 @@ checks.update({
 checks.update({
  "C17": dict(level="model_checking", engine="SEQ", ref="DESIGN.md §5 C17",
    technique="exhaustive enumeration (iterative deepening) of all operation sequences up to a depth over <=2 pushed requests on the real provider with a lock-step model; every started authorization is carried through redemption and compared with the pushed values",
-   text="Every sequence of push (6 variants incl. failed authentication, header/body client mismatch, request containing request_uri) / use(request_uri, right or wrong client, 10 conflicting extra parameters, or with a failing DeletePARSession) / use(unknown or foreign-prefix URI) / plain authorize / advance up to depth 4 (5 thorough), for enforcement on/off and default/custom prefix. A request_uri starts at most one authorization, only for its client, only before expiry; the resulting redirect, state, response delivery, stored form values, token scope/audience/client, PKCE binding and ID-token nonce equal the pushed values.",
+   text="Every sequence of push (7 variants incl. failed authentication, header/body client mismatch with and without a request parameter, request containing request_uri) / use(request_uri, right or wrong client, 10 conflicting extra parameters, with a failing DeletePARSession, or spelt with trailing white space) / use(unknown or foreign-prefix URI) / plain authorize / advance up to depth 4 (5 thorough), for enforcement on/off and default/custom prefix. A request_uri starts at most one authorization, only for its client, only before expiry; the resulting redirect, state, response delivery, stored form values, token scope/audience/client, PKCE binding and ID-token nonce equal the pushed values.",
    note="Survival of a request_uri after a refused attempt and parameters that were not pushed at all are not pinned by the statement (recorded as notes)."),
 })
 
@@ -85,7 +85,7 @@ checks.update({
 checks.update({
  "C13": dict(level="exploration", engine="ENUM", ref="DESIGN.md §5 C13",
    technique="exhaustive enumeration of five product groups (registration x request) against the real authorization endpoint, one-sided acceptance conditions; issued codes carried to the token endpoint",
-   text="G1 response types (8 registrations x 4 grant sets x public x every ordered list of <=3 tokens incl. duplicates/unknown/empty x openid), G2 response modes, G3 state/nonce lengths around the threshold for two entropy settings, G4 redirect_uri presence x openid x flows x grant sets, G5 request objects (14 variants: registered/other/unknown keys, RS/ES/PS/HS/none, tampered, request_uri registered/unregistered/unfetchable/both x 6 registered algorithms): an accepted request satisfies every condition of the statement; access and ID tokens never appear in the query; state is echoed on every redirect; a client without authorization_code never redeems a code; request-object parameters are honoured only for registered key+algorithm; G6: request objects verified through jwks_uri with the real fetcher and cache (look-alike URIs of two tenants).",
+   text="G1 response types (8 registrations x 4 grant sets x public x every ordered list of <=3 tokens incl. duplicates/unknown/empty x openid), G2 response modes, G3 state/nonce lengths around the threshold for two entropy settings, G4 redirect_uri presence x openid x flows x grant sets, G5 request objects (14 variants: registered/other/unknown keys, RS/ES/PS/HS/none, tampered, request_uri registered/unregistered/unfetchable/both x 6 registered algorithms): an accepted request satisfies every condition of the statement; access and ID tokens never appear in the query; state is echoed on every redirect; a client without authorization_code never redeems a code; request-object parameters are honoured only for registered key+algorithm; G2 also through pushed requests (response_mode pushed, or appended to the request_uri leg); G6: request objects verified through jwks_uri with the real fetcher and cache (look-alike URIs of two tenants).",
    note="G7 covers the cross terms of G1-G4 on three registrations. Don't-care: hybrid code+id_token ID token without implicit grant; unsigned request object when no algorithm is registered."),
 })
 
@@ -117,8 +117,8 @@ checks.update({
 checks.update({
  "C19": dict(level="model_checking", engine="SCHED", ref="DESIGN.md §5 C19",
    technique="stateless depth-first schedule exploration of the real provider + reference store under a cooperative scheduler with iterative preemption bounding; vector-clock happens-before race detection over shim lock edges and overlay access hooks; brute-force linearizability of store-operation triples",
-   text="16 API scenarios (redeem||redeem, refresh||refresh, refresh||revoke||introspect, refresh||revoke, redeem||introspect||authorize, poll||poll, device-auth||poll, PAR-use||PAR-use, authorize||authorize and token||token on a default-constructed and a populated Config, issue||introspect, PAR-push||device-auth, issue||device-auth, mint||mint||mint) at lock granularity (preemption bound 2/1 quick, 3/2 thorough) and at storage-call granularity (all interleavings where feasible, else bound 4/6); plus every multiset of 3 store operations per table (332 triples) from a populated state. Every complete execution: no deadlock, no panic, no unordered conflicting access on instrumented fields, no duplicate token value, no inactive token handed out without a concurrent invalidation, and for store triples results + final dump equal some sequential permutation.",
-   note="Races are decided for fields used inside pointer-receiver methods of ory/fosite types (a field of a stateful standard-library type such as hash.Hash counts as written on every use) and for package-level variables of slice/array/map/basic types (byte buffers count as written when handed to a call, also through a local slice of them); other memory, and the lazily created JWKS fetcher, are not observed. 2-3 goroutines."),
+   text="19 API scenarios (redeem||redeem, OIDC device poll||poll, refresh||refresh, refresh||revoke||introspect, refresh||revoke, redeem||introspect||authorize, poll||poll, device-auth||poll, PAR-use||PAR-use, authorize||authorize and token||token on a default-constructed and a populated Config, issue||introspect, PAR-push||device-auth, issue||device-auth, mint||mint||mint) at lock granularity (preemption bound 2/1 quick, 3/2 thorough) and at storage-call granularity (all interleavings where feasible, else bound 4/6); plus every multiset of 3 store operations per table (332 triples) from a populated state. Every complete execution: no deadlock, no panic, no unordered conflicting access on instrumented fields, no lock still held after every request returned (leak), no duplicate token value, no inactive token handed out without a concurrent invalidation, and for store triples results + final dump equal some sequential permutation.",
+   note="Races are decided for fields used inside pointer-receiver methods of ory/fosite types (a field of a stateful standard-library type such as hash.Hash counts as written on every use; map fields are additionally keyed by the map itself, also in value-receiver methods), for *url.URL variables whose RawQuery/Fragment a function assigns, and for package-level variables of slice/array/map/basic types (byte buffers count as written when handed to a call, also through a local slice of them); other memory, and the lazily created JWKS fetcher, are not observed. 2-3 goroutines."),
 })
 
 # properties not (yet) claimed: reason
